@@ -230,6 +230,29 @@ func cmdCheck(args []string) int {
 		}
 	}
 	d.all(plain)
+	// rescue pass: an obligation that ran out of time (no counterexample) gets one more attempt
+	// with much longer limits and less parallelism, so that a loaded machine does not turn a
+	// slow proof into an alarm
+	var slowJobs []job
+	for _, j := range plain {
+		if j.o.res == "timeout" || j.o.res == "unknown" {
+			slowJobs = append(slowJobs, j)
+		}
+	}
+	if len(slowJobs) > 0 && len(slowJobs) <= 8 {
+		dr := &discharger{dir: work, seed: seed + 1, timeoutMs: 4 * d.timeoutMs, retryMs: 4 * d.retryMs, par: 4, deadline: d.deadline.Add(240 * time.Second)}
+		for _, j := range slowJobs {
+			j.o.firstRes = j.o.res
+			j.o.res, j.o.solver = "", ""
+		}
+		dr.all(slowJobs)
+		d.solverT += dr.solverT
+		for _, j := range slowJobs {
+			if j.o.res == "unsat" {
+				j.o.solver += " (rescue pass)"
+			}
+		}
+	}
 	if len(withKF) > 0 {
 		dk := &discharger{dir: work, seed: seed, timeoutMs: 3000, retryMs: 3000, par: 8}
 		dk.all(withKF)
